@@ -311,6 +311,10 @@ func (a String) M__mul__(other Object) (Object, error) {
 		if b < 0 {
 			b = 0
 		}
+		if len(a) == 0 {
+			// nothing to repeat: do not loop b times over an empty string
+			return String(""), nil
+		}
 		var out bytes.Buffer
 		for i := 0; i < int(b); i++ {
 			out.WriteString(string(a))
